@@ -215,6 +215,16 @@ def run(ck):
     pool.append({"name": "unbound", "src": "fn dsp(){ undefined_name + 1.0 }", "path": None, "sched": False, "kind": "error"})
     pool.append({"name": "type-error", "src": "fn f(x:float)->float{ x }\nfn dsp(){ f((1.0,2.0)) }", "path": None, "sched": False, "kind": "error"})
     pool.append({"name": "parse-error", "src": "fn dsp( { 1.0 ", "path": None, "sched": False, "kind": "error"})
+    # LARGER erroneous programs (response to seeded change C19c): the diagnostic points at an expression that the type checker reaches
+    # late, so other jobs start, succeed and finish while this job is between parsing and reporting
+    okbig = [s for s in pool if s["kind"] in ("shipped", "gen-core") and len(s["src"]) > 400][:24]
+    errbig = []
+    for i, s0 in enumerate(okbig):
+        tail = ["\nfn zz_err%d(){ undefined_name_q%d + 1.0 }\n" % (i, i),
+                "\nfn zz_err%d(x:float)->float{ x }\nfn zz_use%d(){ zz_err%d((1.0,2.0)) }\n" % (i, i, i)][i % 2]
+        errbig.append({"name": "err-big-%d(%s)" % (i, s0["name"]), "src": s0["src"] + tail, "path": "/tmp/c19err%d/reporter%d.mmm" % (i, i),
+                       "sched": s0["sched"], "kind": "error"})
+    pool += errbig
     ck.coverage["job_pool"] = len(pool)
 
     reqs = []
@@ -229,6 +239,14 @@ def run(ck):
                 js = [r.choice(pool) for _ in range(K)]
             reqs.append({"K": K, "identical": identical, "names": [s["name"] for s in js], "macro_only": False,
                          "req": {"op": "jobs", "jobs": [C15.obs_req(s, 16) for s in js], "seed": r.below(1 << 30), "reps": 3 if quick else 5}})
+    # erroneous and error-free jobs side by side
+    for K in (2, 4, 8, 16):
+        for v in range(6 if quick else 40):
+            r = ck.rng.fork(("C19mixed", K, v))
+            js = [(r.choice(errbig) if (k % 2 == 0) else r.choice(okbig)) for k in range(K)] if errbig and okbig else []
+            if js:
+                reqs.append({"K": K, "identical": False, "names": [s["name"] for s in js], "macro_only": False,
+                             "req": {"op": "jobs", "jobs": [C15.obs_req(s, 8) for s in js], "seed": r.below(1 << 30), "reps": 4 if quick else 6}})
     # macro-stage programs of different directories only: the environment variable of finding F11 is exercised
     mac = [s for s in pool if s["kind"] == "macro"]
     for v in range(8 if quick else 40):
